@@ -29,11 +29,13 @@ func profileKnobs(profile string) knobs {
 		k.pMismatch = 0.06
 	case "c03":
 		k.pMD, k.pHdrCalls, k.pCancel, k.pCreds = 0.95, 0.7, 0.2, 0.25
+		k.pOuterBlank = 0.08
 	case "c04":
 		k.pCancel, k.pDeadline, k.pSleep, k.pWaitCtx, k.pClosure, k.pAdvance = 0.6, 0.4, 0.3, 0.2, 0.5, 0.1
 	case "c05":
 		k.pDeviate, k.pSplit, k.pCancel, k.pDeadline, k.pCloseRace = 0.7, 0.5, 0.3, 0.1, 0.5
 		k.pDyn, k.pExtraResp = 0.1, 0.1
+		k.pCut = 0.2
 	case "c06":
 		k.transports = []string{TInproc}
 		k.pMutate, k.pJunkDst, k.pCancel, k.pDeadline = 0.8, 0.5, 0.4, 0.1
